@@ -693,8 +693,11 @@ pub fn run_one(case: &InnerCase, spec: &RunSpec, rep: &mut Report) -> RunStats {
 
     // ---- (D) what the circuit binds vs what the off-circuit verifier derives ----------------
     let bound = bound_instance(&tt.tables, 1, &[]);
-    let first_diff = (0..bound.len().max(own.instance.len()))
-        .find(|i| bound.get(*i) != own.instance.get(*i));
+    // positions the circuit binds beyond the off-circuit encoding count as a difference; positions
+    // of the off-circuit encoding the circuit does not bind at all are handled below (`untied`)
+    let first_diff = (0..bound.len().min(own.instance.len()))
+        .find(|i| bound.get(*i) != own.instance.get(*i))
+        .or(if bound.len() > own.instance.len() { Some(own.instance.len()) } else { None });
     // every claimed position must be tied to a circuit cell
     let tied: std::collections::BTreeSet<usize> = tt
         .tables
@@ -764,16 +767,40 @@ pub fn run_one(case: &InnerCase, spec: &RunSpec, rep: &mut Report) -> RunStats {
         return st;
     }
     rep.count(&format!("gadget.own-accumulator-accepted[{}]", spec.kind.class()));
+    rep.sample(json!({
+        "part": "verifier-gadget", "inner": case.name, "witness": format!("{:?}", spec.kind),
+        "offcircuit_accumulator_check": own.check, "outer_instance_len": own.instance.len(), "vk_identity_len": own.vk_len,
+        "accumulator_equals_honest_one": own.instance == honest.instance,
+        "own_accumulator_accepted_by": {"reference": r_acc, "mock": m_acc},
+        "first_accumulator_words": own.instance.iter().skip(own.vk_len).take(2).map(hexf).collect::<Vec<_>>(),
+    }));
     rep.nontrivial(&(case.name.clone(), format!("{:?}", spec.kind), "own"));
     if !is_honest {
         rep.count(&format!("gadget.offcircuit-check[{}]", own.check));
     }
     if !untied.is_empty() {
-        rep.violation(
-            "C20/verifier-gadget/accepts-wrong-accumulator",
-            &format!("{} positions of the claimed instance are not bound to any circuit cell ({}; first {:?})", untied.len(), case.name, untied.first()),
-            witness_json(case, spec, &pi, &proof, &own.instance, json!({"untied_positions": untied})),
-        );
+        // confirm on the tables: a claim differing only at an unbound position is accepted
+        let mut claim = own.instance.clone();
+        claim[untied[0]] += F::ONE;
+        tt.set_instance(&claim);
+        let (r, m, _) = tt.verdict(false);
+        tt.set_instance(&own.instance);
+        rep.eval();
+        if r && m {
+            rep.violation(
+                "C20/verifier-gadget/accepts-wrong-accumulator",
+                &format!(
+                    "{} position(s) of the claimed accumulator encoding are not bound to any circuit cell: the circuit is satisfied with another value there ({}; first unbound position {} of {})",
+                    untied.len(),
+                    case.name,
+                    untied[0],
+                    own.instance.len()
+                ),
+                witness_json(case, spec, &pi, &proof, &claim, json!({"untied_positions": untied})),
+            );
+        } else {
+            rep.inconclusive(&format!("{}: instance position {} has no copy constraint but an edit there is rejected", case.name, untied[0]));
+        }
         return st;
     }
 
